@@ -37,6 +37,7 @@ type taskCase struct {
 	Cond       int    `json:"cond"` // 0 absent, 1 true, 2 false
 	Overlap    bool   `json:"overlap_probe,omitempty"`
 	AsStage    bool   `json:"as_stage,omitempty"`
+	StageAllow bool   `json:"stage_allow_failure,omitempty"` // allow_failure of the stage (not of the task) when run as a stage
 }
 
 type syncBuf struct {
@@ -179,7 +180,7 @@ func runTaskCase(a args, tcase taskCase, idx int, shared *runner.TaskRunner) {
 		dep := task.FromCommands(tok("dependant"))
 		dep.Name = "dependant"
 		g, gerr := scheduler.NewExecutionGraph(
-			&scheduler.Stage{Name: "s", Task: t},
+			&scheduler.Stage{Name: "s", Task: t, AllowFailure: tcase.StageAllow},
 			&scheduler.Stage{Name: "d", Task: dep, DependsOn: []string{"s"}})
 		if gerr != nil {
 			out.Viol("C05", "acyclic-rejected", "two-stage chain rejected", tcase)
@@ -286,7 +287,7 @@ func runTaskCase(a args, tcase taskCase, idx int, shared *runner.TaskRunner) {
 		out.Viol("C07", "skipped-flag", fmt.Sprintf("Task.Skipped=%v, want %v", t.Skipped, wantSkipped), cas)
 	}
 	// C07: faithful status
-	if (err != nil) != wantErr {
+	if (err != nil) != (wantErr && !(tcase.AsStage && tcase.StageAllow)) {
 		out.Viol("C07", "error-return", fmt.Sprintf("Run/Schedule returned err=%v, the statement requires error=%v", err, wantErr), cas)
 	}
 	if tcase.Before < 2 && !tcase.Rerun {
@@ -302,14 +303,14 @@ func runTaskCase(a args, tcase taskCase, idx int, shared *runner.TaskRunner) {
 		if wantSkipped {
 			wantStatus = scheduler.StatusDone // a task skipped by its own condition is a stage that completed
 		}
-		if wantErr {
-			wantStatus = scheduler.StatusError
+		if wantErr && !tcase.StageAllow {
+			wantStatus = scheduler.StatusError // a stage whose failure is allowed completes (Done)
 		}
 		if stageStatus != wantStatus {
 			out.Viol("C07", "stage-status", fmt.Sprintf("stage status %s, task outcome requires %s", statusName(stageStatus), statusName(wantStatus)), cas)
 		}
-		if depRan == wantErr {
-			out.Viol("C07", "dependant-ran", fmt.Sprintf("dependant ran=%v although the stage's task error=%v", depRan, wantErr), cas)
+		if depRan != (!wantErr || tcase.StageAllow) {
+			out.Viol("C07", "dependant-ran", fmt.Sprintf("dependant ran=%v although the stage's task error=%v (stage allow_failure=%v)", depRan, wantErr, tcase.StageAllow), cas)
 		}
 	}
 	key := h.MustJSON(tcase)
@@ -385,6 +386,19 @@ func modeTask(a args) {
 			}
 			cases = append(cases, tcx)
 		}
+		// the task as a pipeline stage: the task's allow_failure and the stage's are different things
+		for i := 0; i < a.n(120, 1200); i++ {
+			n := rnd.Range(1, 4)
+			tcx := taskCase{Commands: n, Variations: rnd.Intn(3), Allow: rnd.Bool(), StageAllow: rnd.Bool(), Before: rnd.Intn(2), After: rnd.Intn(3), Cond: rnd.Intn(3) % 2, How: rnd.Pick([]string{"exit", "subshell", "sh"}), AsStage: true}
+			for k := 0; k < n; k++ {
+				st := 0
+				if rnd.Chance(40) {
+					st = rnd.Range(1, 255)
+				}
+				tcx.Fail = append(tcx.Fail, st)
+			}
+			cases = append(cases, tcx)
+		}
 		// seeded larger tasks
 		for i := 0; i < a.n(300, 3000); i++ {
 			n := rnd.Range(4, 8)
@@ -438,6 +452,21 @@ func modeTask(a args) {
 		}
 		for _, sg := range []int{129, 130, 137, 143, 138} {
 			cases = append(cases, taskCase{Commands: 2, Fail: []int{sg, 0}, How: "signal"})
+		}
+		// hooks around a failing command must not change what is reported: before/after present, directly and as
+		// a stage, with the stage's own allow_failure
+		for pos := 0; pos < 3; pos++ {
+			for _, allow := range []bool{false, true} {
+				for af := 0; af < 3; af++ {
+					for b := 0; b < 2; b++ {
+						for st := 0; st < 3; st++ {
+							f := []int{0, 0, 0}
+							f[pos] = rnd.Range(1, 255)
+							cases = append(cases, taskCase{Commands: 3, Fail: f, How: rnd.Pick([]string{"exit", "subshell", "sh"}), Allow: allow, After: af, Before: b, Variations: rnd.Intn(3), AsStage: st > 0, StageAllow: st == 2})
+						}
+					}
+				}
+			}
 		}
 		cases = append(cases, taskCase{Commands: 2, Fail: []int{0, 0}, AsStage: true}, taskCase{Commands: 1, Fail: []int{0}, Cond: 2, AsStage: true})
 	}
